@@ -408,6 +408,160 @@ def xml_event_sequence(k0: int, k1: int, k2: int, csel: int) -> bool:
     return fin(same)
 
 
+class _ReplayParser:
+    """Stands for the expat parser inside XMLTransformerPipeline.apply: replays a given event list on the handler
+    the PIPELINE constructed (so the pipeline's own constructor arguments are exercised)."""
+
+    events = []
+
+    def setContentHandler(self, h):
+        self.h = h
+
+    def setProperty(self, name, value):
+        pass
+
+    def parse(self, source):
+        h = self.h
+        loc = Locator()
+        loc.getLineNumber = lambda: 1
+        loc.getColumnNumber = lambda: 0
+        h.setDocumentLocator(loc)
+        h.startDocument()
+        for ev in _ReplayParser.events:
+            if ev[0] == "start":
+                h.startElement(ev[1], AttributesImpl(dict(ev[2])))
+            elif ev[0] == "end":
+                h.endElement(ev[1])
+            elif ev[0] == "chars":
+                h.characters(ev[1])
+            elif ev[0] == "comment":
+                h.comment(ev[1])
+            elif ev[0] == "cdata":
+                h.startCDATA()
+                h.characters(ev[1])
+                h.endCDATA()
+        h.endDocument()
+
+
+def _reparse(text: str):
+    """Real expat on the written document: the event stream a reader sees (text whitespace-trimmed, CDATA content
+    folded into character data)."""
+    import xml.sax
+    from xml.sax.handler import ContentHandler, property_lexical_handler
+
+    out = []
+
+    class H(ContentHandler):
+        def startElement(self, name, attrs):
+            out.append(("start", name, sorted(attrs.items())))
+
+        def endElement(self, name):
+            out.append(("end", name))
+
+        def characters(self, content):
+            if out and out[-1][0] == "text":
+                out[-1] = ("text", out[-1][1] + content)
+            else:
+                out.append(("text", content))
+
+        def comment(self, content):
+            out.append(("comment", content))
+
+        def startCDATA(self):
+            pass
+
+        def endCDATA(self):
+            pass
+
+        def startDTD(self, *a):
+            pass
+
+        def endDTD(self):
+            pass
+
+    h = H()
+    p = xml.sax.make_parser()
+    p.setContentHandler(h)
+    p.setProperty(property_lexical_handler, h)
+    import io as _io
+
+    p.parse(_io.BytesIO(text.encode("utf-8")))
+    return [e if e[0] != "text" else ("text", e[1].strip()) for e in out if not (e[0] == "text" and not e[1].strip())]
+
+
+def xml_pipeline_roundtrip(k0: int, k1: int, empty_leaf: bool, dry_run: bool) -> bool:
+    """XMLTransformerPipeline.apply (expat replaced by an event replayer, everything else real, including how the
+    pipeline constructs the transformer): a document `<root><t flag="no">` + two children of symbolic kinds
+    (text, comment, CDATA, element - the first child directly after the start tag) is rewritten so that a real
+    XML parser reads back exactly the same elements, text, comments and CDATA content, with only the target
+    attribute changed.
+    post: _
+    """
+    import harness.skel as skel
+    from codemodder.codemods.xml_transformer import XMLTransformerPipeline
+    from crosshair.core import deep_realize
+    from crosshair.tracers import NoTracing
+    from vlib.stubs import Ctx, FakePath
+
+    def child(kind, tag):
+        if kind % 4 == 0:
+            return [("chars", "t<&")]
+        if kind % 4 == 1:
+            return [("comment", " c ")]
+        if kind % 4 == 2:
+            return [("cdata", "a<b & c")]
+        return [("start", tag, {}), ("end", tag)]
+
+    events = [("start", "root", {}), ("start", "t", {"flag": "no"})] + child(k0, "u") + child(k1, "v") + [("end", "t")]
+    if empty_leaf:
+        events += [("start", "leaf", {}), ("end", "leaf")]
+    events += [("end", "root")]
+    _ReplayParser.events = events
+    xt.make_parser = _ReplayParser
+    xt.TemporaryFile = skel.StrTemp
+    fp = FakePath(b"<root/>", rel="c.xml")
+    fc = FileContext(Path("/d"), fp, [], [], None)
+
+    class T(ElementAttributeXMLTransformer):
+        change_description = "d"
+
+        def __init__(self, out, file_context, results=None, **kw):
+            super().__init__(out, file_context, name_attributes_map={"t": {"flag": "yes"}}, results=results, **kw)
+
+    import codemodder.codemods.xml_transformer as _xt
+
+    _xt.Change = skel.Change
+    cs = XMLTransformerPipeline(T).apply(Ctx(dry_run), fc, None)
+    if cs is None:
+        return False
+    if dry_run:
+        return fin(fp.writes == [])
+    written = deep_realize(fp.content.decode("utf-8"))
+    with NoTracing():
+        try:
+            got = _reparse(written)
+        except Exception:
+            return False
+        exp = []
+        for ev in events:
+            if ev[0] == "start":
+                attrs = dict(ev[2])
+                if ev[1] == "t":
+                    attrs["flag"] = "yes"
+                exp.append(("start", ev[1], sorted(attrs.items())))
+            elif ev[0] == "end":
+                exp.append(("end", ev[1]))
+            elif ev[0] in ("chars", "cdata"):
+                if exp and exp[-1][0] == "text":
+                    exp[-1] = ("text", (exp[-1][1] + ev[1]).strip())
+                else:
+                    exp.append(("text", ev[1].strip()))
+            else:
+                exp.append(("comment", ev[1]))
+        same = got == exp
+    return fin(same)
+
+
 def planted_cdata_escape(c: str) -> bool:
     """Self-test: escaping inside CDATA must be refuted by the CDATA obligation's oracle.
     pre: len(c) <= 2
@@ -433,6 +587,7 @@ def warmup():
     xml_element_attrs(True, True, 2, 3, 2, 4, False)
     xml_new_element(True, 3, "x<")
     xml_event_sequence(1, 0, 2, 2)
+    xml_pipeline_roundtrip(1, 2, True, False)
 
 
 SPEC = {
@@ -446,6 +601,7 @@ SPEC = {
         "XMLTransformer.characters/comment/startCDATA/endCDATA/startElement/endElement/match_result/add_change/event_match_result/setDocumentLocator",
         "ElementAttributeXMLTransformer.startElement",
         "NewElementXMLTransformer.endElement/add_new_element",
+        "XMLTransformerPipeline.apply (transformer construction, writing) with a replayed event stream, re-read by the real expat parser",
     ],
     "bounds": {
         "quick": "<= 2 (thorough 3) lines chosen from a pool of 4 (empty, one match, no match, two matches), <= 2 findings with symbolic line ranges in 1..4; XML character data / CDATA / comment / PI content of <= 3 symbolic characters (any Unicode); attribute values of <= 2 characters over the 9 classes escape()/quoteattr() distinguish, locator and finding positions unbounded ints",
@@ -469,6 +625,7 @@ SPEC = {
         Xh("xml_element_attrs", 120, 300),
         Xh("xml_new_element", 120, 300),
         Xh("xml_event_sequence", 200, 600),
+        Xh("xml_pipeline_roundtrip", 200, 400),
         Xh("planted_cdata_escape", 60, 120, twin=False, expect="refuted"),
     ],
 }
